@@ -19,7 +19,7 @@ func regR(id, title string, quick int64) {
 }
 
 func registerOther() {
-	regR("C09", "balancing never loses, duplicates or miscounts a player", 20000)
+	regR("C09", "balancing never loses, duplicates or miscounts a player", 12000)
 	regR("C19", "no table over capacity", 20000)
 	regR("C20", "rebalancing settles", 20000)
 	regS("C08", "dealer and blinds land on the right seats", 30000)
